@@ -87,11 +87,19 @@ class _Desc:
 
 
 def _names(isa, picks):
+    """(canonical register, spelling): sub-register names and - register names are
+    case-insensitive in the API - upper / capitalised spellings"""
     out = []
     for a, b in picks:
         r = REGS[isa][a % len(REGS[isa])]
         sp = SPELL.get(isa, {}).get(r, [r])
-        out.append((r, sp[b % len(sp)]))
+        name = sp[b % len(sp)]
+        case = (b // max(1, len(sp))) % 3
+        if case == 1:
+            name = name.upper()
+        elif case == 2:
+            name = name.capitalize()
+        out.append((r, name))
     return out
 
 
